@@ -904,3 +904,42 @@ def reentrant(ops, seed, period=4):
             if left == 0: out.append("ri 0")
     out.append("ri 0")
     return out
+
+# ---- reception patterns: one station held for a while, burst errors, co-channel interference ----
+def station_stream(seed, n):
+    """What a receiver sees when it stays on one station: the same PI/PTY/TP header in group after group (so that 'same as last
+    time' shortcuts are armed), fades that make blocks B, C and D uncorrectable together while block A still decodes (or the
+    other way round), and single groups of a foreign station breaking in (another PI, usually under a burst) after which the
+    old header returns. Independent per-block error codes (the other random streams) make these correlated patterns rare."""
+    g = Gen(seed, "station")
+    r = g.r
+    out = g.prologue(all_cbs=True)
+    def header():
+        return (g.pi(), r.choice(g.pty_pool), r.randrange(2))
+    cur = header()
+    def errs():
+        x = r.random()
+        if x < 0.50: return (0, 0, 0, 0)
+        if x < 0.62: return (0, r.choice([3, 3, 4, 255]), r.choice([3, 3, 5]), r.choice([3, 3, 200]))   # fade after block A
+        if x < 0.70: return (r.choice([1, 2, 3, 9]), 0, 0, 0)
+        if x < 0.78: return (0, r.choice([1, 2, 3]), 0, 0)
+        if x < 0.84: return (r.choice([3, 4]), r.choice([3, 4]), r.choice([3, 4]), r.choice([3, 4]))
+        return tuple(g.err(0.6) for _ in range(4))
+    while len(out) < n:
+        x = r.random()
+        if x < 0.04: cur = header()
+        elif x < 0.05: out.append("clear"); continue
+        elif x < 0.055: out += ["new"] + ["r %d 1" % k for k in range(12)]; continue
+        pi, pty, tp = cur
+        if x >= 0.88:                      # a single group of another station breaks in
+            pi = r.choice([p for p in g.pi_pool if p != cur[0]] or [cur[0] ^ 1])
+            if r.random() < 0.5: pty, tp = r.choice(g.pty_pool), r.randrange(2)
+        gtype = r.choice([0, 0, 0, 1, 2, 2, 4, 10, 3, 8, 14, 15])
+        ver = 1 if r.random() < 0.2 else 0
+        low5 = r.randrange(32)
+        b = (gtype << 12) | (ver << 11) | (tp << 10) | (pty << 5) | low5
+        c = (r.choice(g.af_pool) << 8 | r.choice(g.af_pool)) if gtype == 0 else (r.choice(g.ecc_pool) if gtype == 1 else g.word())
+        if ver == 1 and r.random() < 0.6: c = pi
+        e = errs() if x < 0.88 else ((0, r.choice([3, 4]), r.choice([3, 4]), r.choice([3, 4])) if r.random() < 0.6 else errs())
+        out.append("p %d %d %d %d %d %d %d %d" % (pi, b, c, g.word(), e[0], e[1], e[2], e[3]))
+    return out
